@@ -184,3 +184,11 @@ func InstrIndex(in ssa.Instruction) int {
 func Site(f *ssa.Function, what string, args ...any) string {
 	return FuncKey(f) + "/" + fmt.Sprintf(what, args...)
 }
+
+// CalleeKey2 returns the callee key when v is a call value, else "".
+func CalleeKey2(v ssa.Value) string {
+	if c, ok := v.(*ssa.Call); ok {
+		return CalleeKey(c)
+	}
+	return ""
+}
